@@ -162,6 +162,8 @@ C07_KEYS = ("before_started", "without_started", "after_started", "after_the_sta
 
 def tg_props_of(name):
     tail = name.split("/", 1)[-1]
+    if "C03." in tail:
+        return {"C03"}
     if "task_done" in name and any(k in tail for k in ("before_started", "without_started", "after_started", "after_the_starter_was_cancelled")):
         return {"C02", "C07"}  # routing of a child's outcome: what surfaces where (C02) and the start() handshake (C07)
     if name.startswith(("TaskGroup.start", "_AsyncioTaskStatus.")):
@@ -181,6 +183,8 @@ class TGBase:
 
     contracts = dict(S.SCOPE_CALLS)
     contracts["CancelScope._effectively_cancelled"] = S.EFF_PROP
+    contracts["CancelScope._deliver_cancellation"] = S.DELIVER  # proved by specs/c03_delivery.py
+    contracts["CancelScope._restart_cancellation_in_parent"] = S.RESTART
 
     def tg_globals(self):
         return {
@@ -1018,7 +1022,19 @@ class SpawnMixin:
         return z3.And(tasks(h, s).has(t), S.members(h, c).has(t), ts != 0, h.f("TaskState", "cancel_scope", ts) == c, z3.Not(h.f("Task", "done", t)))
 
 
+def spawn_restarts_delivery(ip, nm, post, s):
+    """C03 ("never lost because the task was newly created"): once the new child is registered in the group's scope c,
+    the scope whose cancellation reaches c -- c itself if cancelled, else the nearest cancelled ancestor not behind a
+    shield -- has a delivery callback scheduled, or no live task (the child is one) is reachable from it"""
+    from specs import c03_delivery as D
+
+    c = scope(post, s)
+    n = z3.If(S.cc(post, c), c, z3.If(S.shield(post, c), 0, D.near(post, S.parent(post, c))))
+    ip.ctx.oblige(f"{nm}/post:C03.a_child_started_inside_a_cancelled_scope_has_a_delivery_scheduled", z3.Implies(n != 0, z3.Or(S.chandle(post, n) != 0, z3.Not(D.live(post, n)))), "post")
+
+
 class CreateTaskUnit(SpawnMixin, TGUnit):
+    props = ("C01", "C02", "C03", "C07")
     method = "create_task"
     contract = None
 
@@ -1060,6 +1076,7 @@ class CreateTaskUnit(SpawnMixin, TGUnit):
             ip.ctx.oblige(f"{nm}/post:child_is_a_member_of_the_group_scope", S.members(post, c).has(t), "post")
             ip.ctx.oblige(f"{nm}/post:child_task_state_is_registered_with_the_group_scope", z3.And(ts != 0, post.f("TaskState", "cancel_scope", ts) == c, z3.Not(post.f("Task", "done", t))), "post")
             ip.ctx.oblige(f"{nm}/post:returns_the_handle_of_an_unfinished_task", z3.BoolVal(isinstance(ret, Sym) and ret.ty is THR), "post")
+            spawn_restarts_delivery(ip, nm, post, s)
 
 
 class StartedUnit(SpawnMixin, TGBase, MethodUnit):
@@ -1116,7 +1133,7 @@ HANDLE_WAIT.bind = lambda ip, args, kwargs: types.SimpleNamespace(self=args[0].t
 class StartUnit(SpawnMixin, TGUnit):
     method = "start"
     contract = None
-    split = (2, 3, 2)
+    split = (2, 2, 2, 2, 2)
 
     def __init__(self):
         super().__init__()
